@@ -136,6 +136,8 @@ type Server struct {
 	conns    map[string]map[net.Conn]bool
 	live     map[string]map[net.Conn]bool // client -> established, session-bearing connections
 
+	// HandshakeLatency is the virtual time a session handshake takes.
+	HandshakeLatency time.Duration
 	// Before is called under the server mutex before a request is applied. It must not block
 	// and must not call back into the server.
 	Before func(r Req) Action
@@ -150,13 +152,14 @@ type Server struct {
 // New returns an empty server.
 func New() *Server {
 	return &Server{
-		root:     &znode{children: map[string]*znode{}},
-		sessions: map[int64]*session{},
-		nextSess: 0x1000,
-		cut:      map[string]bool{},
-		mute:     map[string]bool{},
-		conns:    map[string]map[net.Conn]bool{},
-		live:     map[string]map[net.Conn]bool{},
+		root:             &znode{children: map[string]*znode{}},
+		sessions:         map[int64]*session{},
+		nextSess:         0x1000,
+		HandshakeLatency: 2 * time.Millisecond,
+		cut:              map[string]bool{},
+		mute:             map[string]bool{},
+		conns:            map[string]map[net.Conn]bool{},
+		live:             map[string]map[net.Conn]bool{},
 	}
 }
 
@@ -666,6 +669,14 @@ func (z *Server) Serve(c net.Conn, client string) {
 	passwd := d.buf()
 	if d.err != nil {
 		return
+	}
+	// The session handshake costs a little (virtual) time, as on any network. Without it a
+	// reconnect after an expiry produces eight session events in one instant, and the client
+	// library's lossy event channel (capacity 6) may drop the final "has session" event. No
+	// coordination call can be queued in the client during the handshake: the harness's DCS
+	// decorator lets calls through only while a handshake-completed connection exists.
+	if z.HandshakeLatency > 0 {
+		time.Sleep(z.HandshakeLatency)
 	}
 	z.mu.Lock()
 	if z.down || z.cut[client] {
